@@ -51,7 +51,7 @@ func vpGenEntry(depth int) (any, vpWantStep) {
 		s := "block"
 		return s, vpWantStep{kind: vpKInput}
 	case 2:
-		s := vpStrUpTo(3, "a-z")
+		s := vpStrUpTo(3-2*vpParam("short"), "a-z")
 		vpAssume(vpKindByScalar(s) == vpKUnknown)
 		return s, vpWantStep{kind: vpKUnknown, fallback: true, orig: s}
 	case 3:
@@ -70,7 +70,7 @@ func vpGenEntry(depth int) (any, vpWantStep) {
 		m := vpMapOf("command", "c", "plugins", "not-a-list")
 		return m, vpWantStep{kind: vpKUnknown, fallback: true, orig: m}
 	case 8:
-		t := vpStrUpTo(2, "a-z")
+		t := vpStrUpTo(2-vpParam("short"), "a-z")
 		m := vpMapOf("type", t, "command", "c")
 		vpAssume(vpKindByType(t) == vpKUnknown)
 		return m, vpWantStep{kind: vpKUnknown, fallback: true, orig: m}
